@@ -36,7 +36,10 @@ package main
 //              | e:<text> blue-green-balance "" plus blue-green-deploy <text>       (%20 = blank)
 //     eps      `-` | <r|d>:<pod>[@<a>],...   r ready, d not ready (drain-support: weight 0 before blue/green)
 //              pod: n address without targetRef | m targetRef of a pod that does not exist | 0 pod without
-//              labels | k=v+k=v labels of the pod
+//              labels | k=v+k=v labels of the pod: the name and the value may be EMPTY (`blue=` = the marker
+//              label blue: "", `=v` = the empty name, `=` both); the pairs are assigned in order into the
+//              pod's label map (pod.Labels[k] = v), a repeated name keeps the last value.  The items of <ann>
+//              likewise: `blue==3` = label blue, value "", weight 3; `==3` = empty name and value.
 //              @<a>: address id of the LISTED endpoint (default: its position k+1); ids may repeat (several
 //              pods behind one ip:port).  The ingress converter adds endpoints with AcquireEndpoint: one
 //              SERVER per address.  When every listed endpoint (>= 2) has the same id the Endpoints object
@@ -511,6 +514,24 @@ func c16ParseEps(s string) ([]c16Ep, bool) {
 
 func c16unesc(s string) string { return strings.ReplaceAll(s, "%20", " ") }
 
+// c16PodLabels: the label map of a pod token (`0` = no labels | k=v+k=v, pairs assigned in order); ok = false for
+// the tokens n / m (no pod)
+func c16PodLabels(pod string) (map[string]string, bool) {
+	if pod == "n" || pod == "m" {
+		return nil, false
+	}
+	labels := map[string]string{}
+	if pod != "0" {
+		for _, kv := range strings.Split(pod, "+") {
+			p := strings.SplitN(kv, "=", 2)
+			if len(p) == 2 {
+				labels[p[0]] = p[1]
+			}
+		}
+	}
+	return labels, true
+}
+
 func c16bgRun(mode, initial, ann string, eps []c16Ep) (out string) {
 	defer func() {
 		if r := recover(); r != nil {
@@ -558,17 +579,9 @@ func c16bgRun(mode, initial, ann string, eps []c16Ep) (out string) {
 		if e.Pod != "n" {
 			name := fmt.Sprintf("pod%d", k)
 			a.TargetRef = &api.ObjectReference{Kind: "Pod", Namespace: "default", Name: name}
-			if e.Pod != "m" {
-				pod := &api.Pod{ObjectMeta: metav1.ObjectMeta{Namespace: "default", Name: name, Labels: map[string]string{}},
+			if labels, ok := c16PodLabels(e.Pod); ok {
+				pod := &api.Pod{ObjectMeta: metav1.ObjectMeta{Namespace: "default", Name: name, Labels: labels},
 					Status: api.PodStatus{PodIP: a.IP}}
-				if e.Pod != "0" {
-					for _, kv := range strings.Split(e.Pod, "+") {
-						p := strings.SplitN(kv, "=", 2)
-						if len(p) == 2 {
-							pod.Labels[p[0]] = p[1]
-						}
-					}
-				}
 				cache.PodList["default/"+name] = pod
 			}
 		}
@@ -648,6 +661,77 @@ func c16bgCase(c *ctx, mode, initial, ann string, eps []c16Ep) {
 		// clause for it (and every clause for the servers / groups the overlap does not touch)
 		c.stat("bg_overlap_cases", 1)
 	}
+	c16bgLabelStats(c, initial, ann, eps)
+}
+
+// c16bgItems: the items of the annotation as [name, value, weight] (nil when some item has not three fields)
+func c16bgItems(ann string) [][]string {
+	if ann == "-" {
+		return nil
+	}
+	var items [][]string
+	for _, it := range strings.Split(c16unesc(ann[2:]), ",") {
+		f := strings.Split(it, "=")
+		if len(f) != 3 {
+			return nil
+		}
+		items = append(items, f)
+	}
+	return items
+}
+
+// c16bgLabelStats (statistics only): which corners of the label space (entry, pod) the case exercises
+func c16bgLabelStats(c *ctx, initial, ann string, eps []c16Ep) {
+	items := c16bgItems(ann)
+	if items == nil {
+		return
+	}
+	emptyValue, emptyName := false, false
+	for _, it := range items {
+		emptyValue = emptyValue || it[1] == ""
+		emptyName = emptyName || it[0] == ""
+	}
+	if emptyValue {
+		c.stat("bg_entry_empty_value_cases", 1)
+	}
+	if emptyName {
+		c.stat("bg_entry_empty_name_cases", 1)
+	}
+	lacks, lacksVsEmpty, carriesEmpty, emptyMatch := false, false, false, false
+	for _, e := range eps {
+		labels, ok := c16PodLabels(e.Pod)
+		if !ok || e.Drain || initial == "0" {
+			continue
+		}
+		for _, it := range items {
+			v, found := labels[it[0]]
+			if !found {
+				lacks = true
+				if it[1] == "" {
+					// the pod LACKS the label of an entry declared with the empty value: matching by
+					// `pod.Labels[name] == value` (a missing key reads as "") and the comma-ok lookup differ
+					lacksVsEmpty = true
+				}
+			} else if v == "" {
+				carriesEmpty = true
+				if it[1] == "" {
+					emptyMatch = true
+				}
+			}
+		}
+	}
+	if lacks {
+		c.stat("bg_pod_lacks_entry_label_cases", 1)
+	}
+	if lacksVsEmpty {
+		c.stat("bg_absent_label_vs_empty_value_cases", 1)
+	}
+	if carriesEmpty {
+		c.stat("bg_pod_label_with_empty_value_cases", 1)
+	}
+	if emptyMatch {
+		c.stat("bg_empty_value_match_cases", 1)
+	}
 }
 
 // c16bgOverlap (statistics only): some non-draining pod matches more than one `label=value=...` item
@@ -655,24 +739,16 @@ func c16bgOverlap(initial, ann string, eps []c16Ep) bool {
 	if ann == "-" || initial == "0" {
 		return false
 	}
-	var items [][]string
-	for _, it := range strings.Split(c16unesc(ann[2:]), ",") {
-		if f := strings.Split(it, "="); len(f) == 3 {
-			items = append(items, f)
-		} else {
-			return false
-		}
-	}
+	items := c16bgItems(ann)
 	for _, e := range eps {
-		if e.Drain || !strings.Contains(e.Pod, "=") {
+		labels, ok := c16PodLabels(e.Pod)
+		if e.Drain || !ok {
 			continue
 		}
 		n := 0
 		for _, it := range items {
-			for _, kv := range strings.Split(e.Pod, "+") {
-				if kv == it[0]+"="+it[1] {
-					n++
-				}
+			if v, found := labels[it[0]]; found && v == it[1] {
+				n++
 			}
 		}
 		if n >= 2 {
@@ -922,6 +998,33 @@ func c16CallersCorpus(c *ctx) {
 	c16bgCase(c, "-", "-", "b:g=blue=50,c=1=10,g=green=50", []c16Ep{{Pod: "g=blue+c=1"}, {Pod: "g=blue"}, {Pod: "g=green"}})
 	c16bgCase(c, "pod", "-", "b:g=blue=50,c=1=10", []c16Ep{{Pod: "g=blue+c=1"}, {Pod: "g=blue"}})
 	c16bgCase(c, "-", "-", "b:g=blue=50,g=blue=30", c16pods("blue", 2))
+	// label VALUES may be empty (marker labels blue: "", green: ""): `blue==3` is label blue, value "", weight 3.
+	// A pod WITHOUT the label is in no group, not even one declared with the empty value (seed C16f: the comma-ok
+	// lookup collapsed into `pod.Labels[name] == value`, a missing key reads as ""). Minimised failing inputs first
+	c16bgCase(c, "pod", "-", "b:blue==3", []c16Ep{{Pod: "0"}})
+	c16bgCase(c, "-", "-", "b:blue==3", []c16Ep{{Pod: "0"}})
+	// the seed's demonstration: two blue markers, one green marker, one pod without group label; 3:1
+	markers := []c16Ep{{Pod: "blue="}, {Pod: "blue="}, {Pod: "green="}, {Pod: "0"}}
+	c16bgCase(c, "-", "100", "b:blue==3,green==1", markers)
+	c16bgCase(c, "pod", "100", "b:blue==3,green==1", markers)
+	c16bgCase(c, "deploy", "100", "d:blue==3,green==1", markers)
+	// one label name, groups by value, one of the values empty; pods: absent, empty, other value, other label
+	byValue := []c16Ep{{Pod: "g="}, {Pod: "g=a"}, {Pod: "g=b"}, {Pod: "0"}, {Pod: "h="}, {Pod: "g=+h=a"}, {Drain: true, Pod: "g="}, {Pod: "n"}}
+	c16bgCase(c, "-", "50", "b:g==10,g=a=30", byValue)
+	c16bgCase(c, "pod", "50", "b:g==10,g=a=30", byValue)
+	c16bgCase(c, "-", "50", "b:g=a=30,g==0", byValue)
+	// the empty label NAME (a Go map key like any other), alone and against the empty value
+	noName := []c16Ep{{Pod: "="}, {Pod: "=v"}, {Pod: "0"}, {Pod: "g="}, {Pod: "=+g=a"}}
+	c16bgCase(c, "-", "7", "b:==3,=v=1", noName)
+	c16bgCase(c, "pod", "7", "b:==3,=v=1", noName)
+	c16bgCase(c, "-", "7", "b:=v=2,g==5", noName)
+	// a label name repeated in the pod token: the last value stays in the map
+	c16bgCase(c, "pod", "-", "b:g==3,g=a=1", []c16Ep{{Pod: "g=a+g="}, {Pod: "g=+g=a"}, {Pod: "g=a+h=+g=b"}})
+	// repeated `=`: four fields, an empty weight, nothing but separators: malformed, every weight untouched
+	for _, a := range []string{"b:g=a=b=1", "b:===", "b:===1", "b:==", "b:g==", "b:=", "b:blue==3,,green==1", "b:blue==3,green=", "b:==0"} {
+		c16bgCase(c, "-", "7", a, markers)
+		c16bgCase(c, "pod", "7", a, noName)
+	}
 }
 
 func c16GwExhaustive(c *ctx) {
@@ -1129,17 +1232,150 @@ func c16BgRandom(c *ctx, r *gen.Rng, n int) {
 	}
 }
 
+// c16BgLabelExhaustive: the label space of the matching condition. Two entries over the names {b, g, ""} and
+// the values {"", x} (every ordered pair, equal entries included) and single entries, against pods that LACK the
+// label, carry it with the empty value, with the entry's value, with another value, or carry another label.
+func c16BgLabelExhaustive(c *ctx) {
+	type nv struct{ n, v string }
+	var sel []nv
+	for _, n := range []string{"b", "g", ""} {
+		for _, v := range []string{"", "x"} {
+			sel = append(sel, nv{n, v})
+		}
+	}
+	weights := [][2]string{{"3", "1"}, {"0", "5"}}
+	modes := [][2]string{{"-", "-"}, {"-", "100"}, {"pod", "-"}, {"deploy", "7"}}
+	if c.thorough() {
+		weights = append(weights, [2]string{"1", "1"}, [2]string{"256", "2"}, [2]string{"5", "0"})
+		modes = append(modes, [2]string{"pod", "100"}, [2]string{"canary", "256"})
+	}
+	pod := func(s string) c16Ep { return c16Ep{Pod: s} }
+	// one entry
+	for _, e := range sel {
+		for _, w := range []string{"3", "0"} {
+			for _, m := range modes {
+				eps := []c16Ep{pod("0"), pod(e.n + "="), pod(e.n + "=x"), pod(e.n + "=y"), pod("z="), {Pod: "n"}, {Drain: true, Pod: e.n + "=" + e.v}}
+				c16bgCase(c, m[0], m[1], "b:"+e.n+"="+e.v+"="+w, eps)
+			}
+		}
+	}
+	// two entries
+	n := 0
+	for _, e1 := range sel {
+		for _, e2 := range sel {
+			for _, w := range weights {
+				for _, m := range modes {
+					n++
+					ann := "b:" + e1.n + "=" + e1.v + "=" + w[0] + "," + e2.n + "=" + e2.v + "=" + w[1]
+					// markers: per name the label absent / empty / x / y, one label per pod
+					l1 := []c16Ep{pod(e1.n + "="), pod(e1.n + "=x"), pod(e1.n + "=y")}
+					if e2.n != e1.n {
+						l1 = append(l1, pod(e2.n+"="), pod(e2.n+"=x"), pod(e2.n+"=y"))
+					}
+					l1 = append(l1, pod("0"), pod("z="))
+					// the demonstration's shape: two members of the first group, one of the second, one of none
+					l2 := []c16Ep{pod(e1.n + "=" + e1.v), pod(e1.n + "=" + e1.v), pod(e2.n + "=" + e2.v), pod("0")}
+					// mixed: a pod carrying both labels, draining / pod-less servers, rotation
+					l3 := []c16Ep{pod(e1.n + "=" + e1.v + "+" + e2.n + "=" + e2.v), pod(e1.n + "=" + e1.v), {Drain: true, Pod: e2.n + "=" + e2.v},
+						{Pod: "n"}, pod("0"), pod(e2.n + "=" + e2.v), pod(e1.n + "=y+z=")}
+					if n%2 == 0 {
+						l2[0], l2[3] = l2[3], l2[0]
+						l3 = append(l3[3:], l3[:3]...)
+					}
+					c16bgCase(c, m[0], m[1], ann, l1)
+					c16bgCase(c, m[0], m[1], ann, l2)
+					c16bgCase(c, m[0], m[1], ann, l3)
+				}
+			}
+		}
+	}
+	c.stat("bg_label_exhaustive", 1)
+}
+
+// c16BgLabelRandom: 1..4 entries over names incl. the empty one and values incl. the empty one; pods with 0..3
+// labels drawn from the same pools (a label absent, empty, equal, different), pod-less / draining servers,
+// repeated addresses, malformed items with repeated `=`
+func c16BgLabelRandom(c *ctx, r *gen.Rng, n int) {
+	names := []string{"g", "v", "", "blue", "green"}
+	values := []string{"", "", "a", "b"}
+	podValues := []string{"", "", "a", "b", "c"}
+	wpool := []string{"0", "1", "2", "3", "10", "50", "100", "128", "255", "256", "300", "-1"}
+	badItems := []string{"g==", "g=a=b=1", "===", "==", "=", "g", "==x", "g==1=", "=g=1="}
+	for i := 0; i < n; i++ {
+		k := r.Range(1, 4)
+		// marker style: every entry its own name and the empty value (half of the cases)
+		marker := r.Chance(1, 2)
+		items := make([]string, k)
+		for j := range items {
+			w := gen.Pick(r, wpool)
+			if r.Chance(1, 4) {
+				w = strconv.Itoa(r.Range(0, 256))
+			}
+			name, value := gen.Pick(r, names), gen.Pick(r, values)
+			if marker {
+				name, value = names[(j+i)%len(names)], ""
+				if r.Chance(1, 6) {
+					value = gen.Pick(r, values)
+				}
+			}
+			items[j] = name + "=" + value + "=" + w
+		}
+		if r.Chance(1, 15) {
+			items[r.Intn(k)] = gen.Pick(r, badItems)
+		}
+		ann := gen.Pick(r, []string{"b:", "b:", "b:", "d:", "e:"}) + strings.Join(items, ",")
+		ne := r.Range(0, 8)
+		eps := make([]c16Ep, ne)
+		for j := range eps {
+			eps[j].Drain = r.Chance(1, 10)
+			switch r.Intn(12) {
+			case 0:
+				eps[j].Pod = gen.Pick(r, []string{"n", "m"})
+			case 1, 2:
+				eps[j].Pod = "0"
+			default:
+				nl := 1
+				if r.Chance(1, 3) {
+					nl = r.Range(2, 3)
+				}
+				kv := make([]string, nl)
+				for l := range kv {
+					kv[l] = gen.Pick(r, names) + "=" + gen.Pick(r, podValues)
+				}
+				if r.Chance(1, 8) {
+					kv = append(kv, "z=")
+				}
+				eps[j].Pod = strings.Join(kv, "+")
+			}
+		}
+		if ne >= 2 && r.Chance(1, 6) {
+			pool := r.Range(1, ne)
+			for j := range eps {
+				eps[j].Addr = r.Range(1, pool)
+			}
+		}
+		mode := gen.Pick(r, []string{"-", "-", "deploy", "pod", "pod", "canary"})
+		initial := gen.Pick(r, []string{"-", "1", "7", "100", "128", "256"})
+		if r.Chance(1, 25) {
+			initial = gen.Pick(r, []string{"0", "x", "300"})
+		}
+		c16bgCase(c, mode, initial, ann, eps)
+	}
+}
+
 func runC16Callers(c *ctx) {
 	c16CallersCorpus(c)
 	c16GwExhaustive(c)
 	c16GwRepeatExhaustive(c)
 	c16BgExhaustive(c)
 	c16BgRepeatExhaustive(c)
+	c16BgLabelExhaustive(c)
 	r := gen.New(c.seed ^ 0xC16CA11E)
-	ngw, nbg := 1200, 1500
+	ngw, nbg, nlb := 1200, 1500, 1200
 	if c.thorough() {
-		ngw, nbg = 30000, 40000
+		ngw, nbg, nlb = 30000, 40000, 30000
 	}
 	c16GwRandom(c, r.Fork(), ngw)
 	c16BgRandom(c, r.Fork(), nbg)
+	c16BgLabelRandom(c, r.Fork(), nlb)
 }
